@@ -249,6 +249,16 @@ class Model:
         return False
 
 
+class SymKey(Model):
+    """A dict key that is a tuple of symbolic integers (store-only; see Engine.hashable)."""
+
+    def __init__(self, tup):
+        self.tup = tup
+
+    def __repr__(self):
+        return f"SymKey({self.tup.items})"
+
+
 class ExcClass(Model):
     def __init__(self, name):
         self.name = name
@@ -1078,9 +1088,12 @@ class Engine:
                 d[self.hashable(self.eval(k, env))] = self.eval(v, env)
         return d
 
-    def hashable(self, v):
+    def hashable(self, v, store=False):
         if isinstance(v, STup) and v.tail is None and all(isinstance(i, (int, str, bool, type(None))) for i in v.items):
             return tuple(v.items)
+        if store and getattr(self, "allow_symbolic_keys", False) and isinstance(v, STup) and v.tail is None \
+                and all(isinstance(i, (int, SI)) and not isinstance(i, bool) for i in v.items):
+            return SymKey(v)   # store-only key: never equal to another key (the unit's precondition says keys are distinct)
         if isinstance(v, (int, str, bool, type(None))):
             return v
         if isinstance(v, Model) and type(v).__hash__ is not None:
@@ -1199,6 +1212,8 @@ class Engine:
         if isinstance(obj, STup):
             return self.seq_getitem(obj, key)
         if isinstance(obj, dict):
+            if any(isinstance(q, SymKey) for q in obj):
+                raise Unsupported("lookup in a dict with symbolic keys")
             k = self.hashable(key)
             if k not in obj:
                 raise PyRaise(SExc("KeyError", (k,)))
@@ -1261,7 +1276,7 @@ class Engine:
         if isinstance(obj, Model):
             return obj.m_setitem(self, key, v)
         if isinstance(obj, dict):
-            obj[self.hashable(key)] = v
+            obj[self.hashable(key, store=True)] = v
             return
         if isinstance(obj, STup) and obj.is_list and isinstance(key, int) and obj.tail is None:
             obj.items[key] = v
@@ -1336,6 +1351,8 @@ class Engine:
             if l.tail is not None:
                 raise Unsupported("concatenation after symbolic tail")
             return STup(l.items + r.items, r.tail, l.is_list)
+        if isinstance(r, STup) and isinstance(op, ast.Mult) and isinstance(l, (int, SI)) and not isinstance(l, bool):
+            l, r = r, l
         if isinstance(l, STup) and isinstance(op, ast.Mult) and isinstance(r, int):
             if l.tail is not None:
                 raise Unsupported("repeat symbolic tuple")
@@ -1519,6 +1536,8 @@ class Engine:
         if isinstance(container, Model):
             return container.m_contains(self, item)
         if isinstance(container, dict):
+            if any(isinstance(q, SymKey) for q in container):
+                raise Unsupported("membership in a dict with symbolic keys")
             return self.hashable(item) in container
         if isinstance(container, STup):
             if container.tail is not None:
